@@ -139,8 +139,8 @@ class ChoiceSegments:
             for i, sg in enumerate(segs):
                 is_last = i == len(segs) - 1
                 nb = any(k == 'PS' or k == 'FAIL' for k in kinds)          # needs_backtrack is global: part of the shape key through the restore statement
-                key = (norm(sg), norm(tail) if is_last else None)
-                if (is_last and key not in good_last) or (not is_last and (norm(sg), None) not in good_mid):
+                key = (kinds[i], norm(sg), norm(tail) if is_last else None)
+                if (is_last and key not in good_last) or (not is_last and (kinds[i], norm(sg), None) not in good_mid):
                     bad.append({'kinds': kinds, 'segment': i, 'text': norm(sg), 'last': is_last})
                     break
         rep.add(unit, f'closure: every segment of {len(combos)} choices of arity 5 and 7 is one of the proved shapes (up to numbering)'.replace('arity 5 and 7', 'arity 5, 7 and 13'), 'case_complete', not bad, detail={'unmatched': bad[:3]})
@@ -224,7 +224,7 @@ class ChoiceSegments:
                 ok = False
                 detail = {'vc': vc.name, 'verdict': v.status, 'kinds': kinds, 'src': src, 'model': str(v.model)[:600]}
                 break
-        key = (norm(seg), norm(tail) if is_last else None)
+        key = (kinds[idx], norm(seg), norm(tail) if is_last else None)      # a shape is proved FOR a kind of child (its flags)
         return ok, key, detail
 
     def head_ok(self, head, cx, roles, needs_err):
@@ -244,46 +244,107 @@ class ChoiceSegments:
         return v.status == 'unsat'
 
 
+def _seq_segs(src):
+    tree = ast.parse(src)
+    loop = next(s for s in tree.body if isinstance(s, ast.While))
+    body = loop.body
+    starts = [i for i, s in enumerate(body) if '_CHILD_' in ast.unparse(s) and isinstance(s, ast.Assign)]
+    out = []
+    for a, b in zip(starts, starts[1:] + [None]):
+        out.append(body[a:b])
+    return tree, body, out
+
+
+def _seq_segment_triple(kinds, idx):
+    """{J} SEG(e) {break: e failed at P, the registers hold ITS failure (status false, its error, its failure position)  |
+                   fall : e succeeded at P, item_k = its value, _pos = its end, status true}
+    from an ARBITRARY state with _pos = P (J: all earlier items succeeded in a chain that ends at P; their item variables are not
+    touched - frame, checked syntactically by the closure)"""
+    node = X.Seq(*[Stub(i + 1, *NAME2FLAGS[k]) for i, k in enumerate(kinds)])
+    src = frag.emit(node, False)
+    tree, body, segs = _seq_segs(src)
+    seg = segs[idx]
+    last = idx == len(segs) - 1
+    stmts = [x for x in seg if not (last and (isinstance(x, ast.Break) or ast.unparse(x).startswith('_result = [')))]
+    kids = [Child(i + 1, *NAME2FLAGS[k]) for i, k in enumerate(kinds)]
+    cx = Cx(None, {}, node, kids, False)
+    cx.src, cx.tree = src, tree
+    ex = Exec(ast.Module(body=stmts, type_ignores=[]))
+    cx.ex = ex
+    install_hooks(ex, cx)
+    P, N = Const('P', I), cx.N
+    st = St(env={'_pos': P, '_text': cx.text, '_status': Const('status_in', B), '_result': Const('result_in', Val)},
+            pc=[N >= 0, 0 <= P, P <= N, reach(P)])
+    c = cx.kids[idx + 1]
+    key = (kinds[idx], re.sub(r'item\d+', 'itemK', norm(stmts)))
+    m = re.search(r'(item\d+) = _result', norm(stmts))
+    if m is None:
+        return False, key, {'error': 'segment does not store its item', 'src': src}
+    item = m.group(1)
+    try:
+        outs = ex.block(stmts, st)
+    except OutOfSubset as e:
+        return False, key, {'error': f'out of subset: {e}', 'src': src}
+    vcs = list(ex.vcs)
+    ok = c.ok(P, RHO0)
+    for kind_, q in outs:
+        e_ = q.env
+        status, result, pos = ex.truth(e_['_status'], q), ex.box(e_['_result']), e_['_pos']
+        if kind_ == 'break':
+            vcs.append(VC('break: the item failed at P and the registers hold its failure', q.pc,
+                          And(Not(ok), Not(status), result == c.err(P, RHO0), pos == c.fpos(P, RHO0)), 'post', path=list(q.trace)))
+        elif kind_ == 'fall':
+            vcs.append(VC('fall through: the item succeeded at P, its value is stored, _pos is its end, status is true', q.pc,
+                          And(ok, status, ex.box(e_[item]) == c.val(P, RHO0), pos == c.end(P, RHO0), 0 <= pos, pos <= N, reach(pos)), 'post', path=list(q.trace)))
+        else:
+            vcs.append(VC(f'segment leaves by {kind_}', q.pc, BoolVal(False), 'post'))
+    if not outs:
+        return False, key, {'error': 'no path', 'src': src}
+    for vc in vcs:
+        v = discharge(vc, ex.axioms)
+        if v.status != 'unsat':
+            return False, key, {'vc': vc.name, 'verdict': v.status, 'kinds': kinds, 'src': src, 'model': str(v.model)[:500]}
+    return True, key, None
+
+
 def seq_closure(rep, tier, unit='segments:Seq'):
-    """Seq / class bodies of arity 5..8: every segment is, up to numbering, one of the segment shapes of the arities proved outright
-    (<= 3), each item variable is assigned exactly once (in its own segment) and the final display lists the item variables of the
-    segments in order - so the value is [v1..vn] for every arity by the frame of the earlier segments"""
-    def segs_of(src):
-        tree = ast.parse(src)
-        loop = next(s for s in tree.body if isinstance(s, ast.While))
-        body = loop.body
-        starts = [i for i, s in enumerate(body) if '_CHILD_' in ast.unparse(s) and isinstance(s, ast.Assign)]
-        out = []
-        for a, b in zip(starts, starts[1:] + [None]):
-            out.append(body[a:b])
-        return tree, body, out
-    known = set()
-    for n in (1, 2, 3):
-        for fl in itertools.product(FLAGS, repeat=n):
-            src = frag.emit(X.Seq(*[Stub(i + 1, *f) for i, f in enumerate(fl)]), False)
-            tree, body, sg = segs_of(src)
-            for s in sg[:-1]:
-                known.add(re.sub(r'item\d+', 'itemK', norm(s)))
+    """Seq for EVERY arity: (a) every segment shape is a Hoare triple from an arbitrary chain position P, keyed by the kind of its child;
+    (b) closure at arity 5, 6, 8: every segment is (kind, text) one of the proved shapes, each item variable is assigned exactly once
+    (in its own segment - the frame of the earlier items) and the final display lists the item variables of the segments in order -
+    so by induction over the segments the registers hold the first failure, or [v1..vn] at the end of the chain with status true"""
+    good = set()
+    for cur in ('AS', 'NP', 'PS'):
+        for prev in ('AS', 'NP'):
+            for kinds, idx in (([prev, cur, 'NP'], 1), ([prev, cur], 1), ([cur, 'NP'], 0), ([cur], 0)):
+                okk, key, detail = _seq_segment_triple(kinds, idx)
+                rep.add(unit, f'segment {cur} at position {idx} of {"/".join(kinds)}: the item\'s failure, or its value stored and the chain extended', 'smt', okk, detail=detail)
+                if okk:
+                    good.add(key)
     bad = []
     checked = 0
+    kind_of = {f: k for k, f in NAME2FLAGS.items()}
     for n in (5, 6, 8):
         combos = list(itertools.product(FLAGS, repeat=n))
         step = max(1, len(combos) // (40 if tier == 'quick' else 400))
         for fl in combos[::step]:
             checked += 1
             src = frag.emit(X.Seq(*[Stub(i + 1, *f) for i, f in enumerate(fl)]), False)
-            tree, body, sg = segs_of(src)
+            tree, body, sg = _seq_segs(src)
             items = []
-            for i, s in enumerate(sg):
-                text = norm(s if i < len(sg) - 1 else [x for x in s if not isinstance(x, ast.Break) and not ast.unparse(x).startswith('_result = [')])
-                if re.sub(r'item\d+', 'itemK', text) not in known:
+            if len(sg) != n:
+                bad.append({'flags': fl, 'error': 'one segment per item expected'})
+                continue
+            for i, s_ in enumerate(sg):
+                text = norm(s_ if i < len(sg) - 1 else [x for x in s_ if not isinstance(x, ast.Break) and not ast.unparse(x).startswith('_result = [')])
+                if (kind_of[tuple(fl[i])], re.sub(r'item\d+', 'itemK', text)) not in good:
                     bad.append({'flags': fl, 'segment': i, 'text': text})
                 m = re.search(r'(item\d+) = _result', text)
                 items.append(m.group(1) if m else None)
             disp = next((ast.unparse(x.value) for x in sg[-1] if ast.unparse(x).startswith('_result = [')), None)
-            if disp != '[' + ', '.join(map(str, items)) + ']' or len(set(items)) != n:
+            stores = [t.id for x in ast.walk(tree) if isinstance(x, ast.Assign) for t in x.targets if isinstance(t, ast.Name) and t.id.startswith('item')]
+            if disp != '[' + ', '.join(map(str, items)) + ']' or len(set(items)) != n or sorted(stores) != sorted(items) or not isinstance(sg[-1][-1], ast.Break):
                 bad.append({'flags': fl, 'display': disp, 'items': items})
-    rep.add(unit, f'closure: {checked} sequences of arity 5, 6, 8: segments are proved shapes, item variables are distinct and listed in order by the final display',
+    rep.add(unit, f'closure: {checked} sequences of arity 5, 6, 8: segments are proved (kind, shape) pairs, item variables are assigned once, distinct, and listed in order by the final display',
             'case_complete', not bad, detail={'unmatched': bad[:3]})
 
 
@@ -355,7 +416,7 @@ class LongestSegments(ChoiceSegments):
             tree, head, segs, tail = split_longest(src)
             ne = 'farthest_error_result' in self.lroles(head, tree)
             for i, sg in enumerate(segs):
-                key = (norm(sg), ne)
+                key = (kinds[i], norm(sg), ne)
                 if (i == 0 and ('first',) + key not in good) or (i > 0 and key not in good):
                     bad.append({'kinds': kinds, 'segment': i, 'text': norm(sg)})
                     break
@@ -433,8 +494,8 @@ class LongestSegments(ChoiceSegments):
         for vc in vcs:
             v = discharge(vc, ex.axioms)
             if v.status != 'unsat':
-                return False, (norm(seg), needs_err), {'vc': vc.name, 'verdict': v.status, 'kinds': kinds, 'src': src, 'model': str(v.model)[:500]}
-        return True, (norm(seg), needs_err), None
+                return False, (kinds[idx], norm(seg), needs_err), {'vc': vc.name, 'verdict': v.status, 'kinds': kinds, 'src': src, 'model': str(v.model)[:500]}
+        return True, (kinds[idx], norm(seg), needs_err), None
 
     def ltail(self, kinds):
         node, src = self.build(kinds)
@@ -484,10 +545,10 @@ def class_body_closure(rep, tier, unit='segments:class-body'):
             for fl in itertools.product(FLAGS, repeat=n):
                 src, names, fields = build(shape, fl)
                 tree, sg = segs_of(src)
-                for s in sg[:-1]:
-                    known.add(nrm(s))
+                for i_, s in enumerate(sg[:-1]):
+                    known.add((tuple(fl[i_]), nrm(s)))          # a shape is known FOR the flags of its member
                 last = [x for x in sg[-1] if not isinstance(x, ast.Break) and not ast.unparse(x).startswith(('_result = Foo(', '_result._metadata'))]
-                known.add(nrm(last))
+                known.add((tuple(fl[len(sg) - 1]), nrm(last)))
     bad, checked = [], 0
     import random
     rnd = random.Random(5)
@@ -501,7 +562,7 @@ def class_body_closure(rep, tier, unit='segments:class-body'):
             assigned = []
             for i, s in enumerate(sg):
                 core_ = s if i < len(sg) - 1 else [x for x in s if not isinstance(x, ast.Break) and not ast.unparse(x).startswith(('_result = Foo(', '_result._metadata'))]
-                if nrm(core_) not in known:
+                if (tuple(fl[i]), nrm(core_)) not in known:
                     bad.append({'shape': ''.join(shape), 'segment': i, 'text': norm(core_)})
                 m = re.search(r'\b(m\d+) = _result', norm(core_))
                 assigned.append(m.group(1) if m else None)
@@ -512,3 +573,141 @@ def class_body_closure(rep, tier, unit='segments:class-body'):
                 bad.append({'shape': ''.join(shape), 'assigned': assigned, 'names': names, 'ctor': ctor})
     rep.add(unit, f'closure: {checked} class bodies with 5, 6, 8 members: member segments are proved shapes, names assigned once in order, constructor lists the plain fields in order, then the span store',
             'case_complete', not bad, detail={'unmatched': bad[:3]})
+
+
+# ---------------------------------------------------------------------------------------------- Skip, every arity
+class SkipSegments:
+    """Skip(e1..en) for EVERY n.  The emitted text is  while True: HEAD ; SEG(e1) ; ... ; SEG(en) ; break   then TAIL.
+    Per iteration, from an arbitrary state satisfying the cut-point invariant
+        J:  _pos == cp == checkpoint  and (ghost) none of the earlier items progresses at cp
+    every segment shape (always-succeeding / non-partial / partial item) is a Hoare triple
+        {J} SEG(e) {continue with _pos = end_e(cp) and e progresses at cp   |   fall through with J and e not progressing at cp}
+    and the last segment followed by `break` leaves the loop with _pos == cp and e not progressing.  So one iteration either takes
+    the FIRST progressing item (one step of the chain of the Skip contract) or finds the position stuck - for any number of items;
+    the loop invariant (chain) and the post (stuck, result None, status True) are those of SkipC.  Closure: every segment of sampled
+    Skips of arity 4, 5 and 9 is one of the proved shapes, HEAD is the checkpoint assignment and the loop ends with `break`."""
+    KINDS = ('AS', 'NP', 'PS')
+
+    def build(self, kinds):
+        nodes = [Stub(i + 1, *NAME2FLAGS[k]) for i, k in enumerate(kinds)]
+        node = X.Skip(*nodes)
+        return node, frag.emit(node, False)
+
+    def split(self, src):
+        tree = ast.parse(src)
+        loops = [s for s in tree.body if isinstance(s, ast.While)]
+        if len(loops) != 1 or not (isinstance(loops[0].test, ast.Constant) and loops[0].test.value is True):
+            raise ValueError('Skip is not one `while True` block')
+        body = loops[0].body
+        starts = [i for i, s in enumerate(body) if isinstance(s, ast.Assign) and '_CHILD_' in ast.unparse(s)]
+        if not starts:
+            raise ValueError('no item attempt')
+        head = body[:starts[0]]
+        segs = [body[a:b] for a, b in zip(starts, starts[1:] + [len(body)])]
+        # the loop ends with `break`, which belongs to no item
+        if not isinstance(segs[-1][-1], ast.Break):
+            raise ValueError('loop body does not end with break')
+        segs[-1] = segs[-1][:-1]
+        ix = tree.body.index(loops[0])
+        return tree, tree.body[:ix], head, segs, tree.body[ix + 1:]
+
+    @staticmethod
+    def progresses(c, q):
+        ok = c.ok(q, RHO0)
+        return And(ok, c.end(q, RHO0) != q) if c.a_s else ok
+
+    def segment(self, kinds, idx, last):
+        node, src = self.build(kinds)
+        try:
+            tree, pre, head, segs, tail = self.split(src)
+        except Exception as e:
+            return False, None, {'error': repr(e), 'src': src}
+        if len(head) != 1 or not (isinstance(head[0], ast.Assign) and ast.unparse(head[0].value) == '_pos' and isinstance(head[0].targets[0], ast.Name)):
+            return False, None, {'error': 'HEAD is not `checkpoint = _pos`', 'src': src}
+        cpname = head[0].targets[0].id
+        seg = segs[idx]
+        stmts = list(seg) + ([ast.Break()] if last else [])
+        kids = [Child(i + 1, *NAME2FLAGS[k]) for i, k in enumerate(kinds)]
+        cx = Cx(None, {}, node, kids, False)
+        cx.src, cx.tree = src, tree
+        ex = Exec(ast.Module(body=stmts, type_ignores=[]))
+        cx.ex = ex
+        install_hooks(ex, cx)
+        cp, N = Const('cp', I), cx.N
+        env = {'_pos': cp, cpname: cp, '_text': cx.text, '_status': Const('status_in', B), '_result': Const('result_in', Val)}
+        st = St(env=env, pc=[N >= 0, 0 <= cp, cp <= N, reach(cp)])
+        c = cx.kids[idx + 1]
+        prog = self.progresses(c, cp)
+        try:
+            outs = ex.block(stmts, st)
+        except OutOfSubset as e:
+            return False, None, {'error': f'out of subset: {e}', 'src': src}
+        vcs = list(ex.vcs)
+        for kind_, q in outs:
+            pos = q.env['_pos']
+            if kind_ == 'continue':
+                vcs.append(VC('continue: this item progresses at the checkpoint and _pos is where it ends (first progressing item, by J)', q.pc,
+                              And(prog, pos == c.end(cp, RHO0), 0 <= pos, pos <= N, reach(pos)), 'post', path=list(q.trace)))
+            elif kind_ == 'fall' and not last:
+                vcs.append(VC('fall through: J again, with this item not progressing at the checkpoint', q.pc,
+                              And(Not(prog), pos == cp, q.env[cpname] == cp), 'post', path=list(q.trace)))
+            elif kind_ == 'break' and last:
+                vcs.append(VC('last: the loop is left at the checkpoint with this item not progressing (so the position is stuck, by J)', q.pc,
+                              And(Not(prog), pos == cp), 'post', path=list(q.trace)))
+            else:
+                vcs.append(VC(f'segment leaves by {kind_}', q.pc, BoolVal(False), 'post'))
+        if not outs:
+            return False, None, {'error': 'no path', 'src': src}
+        for vc in vcs:
+            v = discharge(vc, ex.axioms)
+            if v.status != 'unsat':
+                return False, (kinds[idx], norm(seg), last), {'vc': vc.name, 'verdict': v.status, 'kinds': kinds, 'src': src, 'model': str(v.model)[:600]}
+        return True, (kinds[idx], norm(seg), last), None
+
+    def run(self, rep, tier, unit='segments:Skip'):
+        good = set()
+        for cur in self.KINDS:
+            for prev in self.KINDS:
+                for nxt in self.KINDS:
+                    ok, key, detail = self.segment([prev, cur, nxt], 1, last=False)
+                    rep.add(unit, f'middle segment {cur} (after {prev}, before {nxt}): continues with the first progressing item or re-establishes J', 'smt', ok, detail=detail)
+                    if ok and key:
+                        good.add(key)
+                ok, key, detail = self.segment([prev, cur], 1, last=True)
+                rep.add(unit, f'last segment {cur} (after {prev}) + break: continues, or leaves the loop stuck at the checkpoint', 'smt', ok, detail=detail)
+                if ok and key:
+                    good.add(key)
+            ok, key, detail = self.segment([cur, 'NP'], 0, last=False)
+            rep.add(unit, f'first segment {cur}: as a middle segment from the state HEAD establishes (J with no earlier item)', 'smt', ok, detail=detail)
+            if ok and key:
+                good.add(key)
+            ok, key, detail = self.segment([cur], 0, last=True)
+            rep.add(unit, f'only segment {cur} + break', 'smt', ok, detail=detail)
+            if ok and key:
+                good.add(key)
+        # vacuity: a deliberately wrong shape must NOT be accepted (the restore of a partial item dropped)
+        node, src = self.build(['PS', 'NP'])
+        broken = src.replace('    else:\n        _pos = checkpoint1\n', '')
+        rep.add(unit, 'must-fail guard: the partial-item segment without its restore is NOT one of the proved shapes', 'case_complete',
+                broken != src and ('PS', norm(self.split(broken)[3][0]), False) not in good, detail={'src': broken})
+        combos = list(itertools.product(self.KINDS, repeat=4))
+        combos += list(itertools.product(self.KINDS, repeat=5))[::(5 if tier == 'quick' else 1)]
+        combos += [tuple(self.KINDS[(i * j + i // 2) % 3] for i in range(9)) for j in range(1, 7)]
+        bad = []
+        for kinds in combos:
+            node, src = self.build(list(kinds))
+            try:
+                tree, pre, head, segs, tail = self.split(src)
+            except Exception as e:
+                bad.append({'kinds': kinds, 'error': repr(e)})
+                continue
+            if len(segs) != len(kinds) or pre or [ast.unparse(s) for s in tail] != ['_result = None', '_status = True'] \
+                    or len(head) != 1 or ast.unparse(head[0].value) != '_pos':
+                bad.append({'kinds': kinds, 'error': 'frame of the emission (HEAD / TAIL / one segment per item)', 'src': src})
+                continue
+            for i, sg in enumerate(segs):
+                if (kinds[i], norm(sg), i == len(segs) - 1) not in good:
+                    bad.append({'kinds': kinds, 'segment': i, 'text': norm(sg)})
+                    break
+        rep.add(unit, f'closure: every segment of {len(combos)} Skips of arity 4, 5 and 9 is one of the proved shapes (up to numbering); HEAD = checkpoint, the loop ends with break, TAIL = (None, True)',
+                'case_complete', not bad, detail={'unmatched': bad[:3]})
